@@ -88,4 +88,18 @@ SPEC = {
             {"name": "faults", "test": "TestC05", "checks": [60, 500], "shards": [8, 14], "timeout": [900, 7200]},
         ],
     },
+    "C12": {
+        "level": "exploration",
+        "rule": "random programs mixing presence set/clear with edits, attaches with/without initial presence and with/without the "
+                "disable-presence request (first attacher fixes the document flag, later ones draw the opposite on purpose), detach, re-attach, "
+                "deactivate, late attach, snapshot thresholds; oracle on presence-enabled documents after each quiescent round: every attached "
+                "replica's AllPresences() contains exactly the attached actors that show themselves, each with the value the actor's own replica "
+                "shows, and no detached/deactivated actor; on presenceless documents: no stored log row carries presence or is presence-only, no "
+                "response change and no snapshot carries presence, no replica shows another actor. non-trivial = >=2 presence writes and a "
+                "detach/deactivate/late attach/snapshot pull in the case; distinct = distinct program hash",
+        "assumptions": ["the local presence map of a client that asked for presence on a presenceless document is not asserted (outside the property's quantifier)"],
+        "parts": [
+            {"name": "random", "test": "TestC12", "checks": [1500, 12000], "shards": [4, 14], "timeout": [900, 7200]},
+        ],
+    },
 }
